@@ -104,11 +104,20 @@ def rerun_shard_for(mod, shard, tier, seed, viol):
             return {"violated": True, "detail": f"exception: {type(exc).__name__}: {exc} escaped from the code under test"}
         raise InternalError("shard re-run crashed:\n" + traceback.format_exc())
     want = _case_key(viol.get("case"))
+    same_sub = None
     for x in res.get("violations", []):
         if x.get("subcheck") == viol.get("subcheck") and _case_key(x.get("case")) == want:
             return {"violated": True, "detail": "reproduced by re-running the exploration history (shard) that found it; not "
                                                 "reproducible from the case alone - state carried between calls: "
                                                 + str(x.get("detail"))}
+        if same_sub is None and x.get("subcheck") == viol.get("subcheck"):
+            same_sub = x
+    if same_sub is not None:
+        # this process has its own past (replays, earlier re-runs), so a state-dependent failure may surface at another case of
+        # the same history: the same subcheck failing again in the re-run history is still a failure of the real code
+        return {"violated": True, "detail": "re-running the exploration history (shard) that found it fails the same subcheck again, at "
+                                            "another case of that history (the failure depends on what the process did before): "
+                                            + str(same_sub.get("detail"))}
     return {"violated": False, "detail": None}
 
 
